@@ -69,6 +69,12 @@ def highestBit (s : SV) : Int :=
   | some i => (i : Int)
   | none => -1
 
+/-- The 64 binary digits `%064b` prints, most significant first. -/
+def digits (s : SV) : List Char := (List.range 64).reverse.map (fun i => if s.getLsbD i then '1' else '0')
+
+/-- `String`: `fmt.Sprintf("SchemaVersion(0b%064b)", sv)`. -/
+def toStr (s : SV) : String := "SchemaVersion(0b" ++ String.ofList (digits s) ++ ")"
+
 end SV
 
 /-! ## Registry (migration/registry.go) -/
@@ -312,6 +318,32 @@ def run (cfg : Cfg) (reg : Registry) (env : Env) (d : Disk) : RunSt × Result :=
   if pending == 0#64 then (s, .ok) else
   runLoop cfg env target (SV.iter pending) s
 
+/-- Which migration `Run`'s error names (`fmt.Errorf("running migration at index %d: %w", …)`): the index
+at which the `for` loop stopped because `runMigration` returned an error. `none`: the loop ran to its
+end or was left at its head (`return ctx.Err()` — a bare error without an index), or the process
+died there. -/
+def stopIdx (cfg : Cfg) (env : Env) (last : SV) : List Nat → RunSt → Option Nat
+  | [], _ => none
+  | i :: rest, s =>
+    if s.dead env then none else
+    if s.cancelled env then none else
+    match runMigration cfg env last i s with
+    | (_, some _) => some i
+    | (s', none) => stopIdx cfg env last rest s'
+
+/-- `stopIdx` of a whole `Run` (the first metadata write has no index: "writing schema metadata: …"). -/
+def runStopIdx (cfg : Cfg) (reg : Registry) (env : Env) (d : Disk) : Option Nat :=
+  let m := d.metaD
+  let target := reg.target
+  let s : RunSt := ⟨d, m.cur, 0, []⟩
+  if s.dead env then none else
+  if s.writeFails env then none else
+  let s := { s.tickEv (.metaWrite ⟨m.cur, target⟩) with disk := { d with md := some ⟨m.cur, target⟩ } }
+  if s.dead env then none else
+  let pending := SV.diff target m.cur
+  if pending == 0#64 then none else
+  stopIdx cfg env target (SV.iter pending) s
+
 /-- One start of the node's migration phase: `NewRunner` then `Run` (node/migration.go). A refused
 database is left untouched; so is one whose metadata cannot be read. -/
 structure Start where
@@ -324,6 +356,48 @@ def start (cfg : Cfg) (d : Disk) (st : Start) : Disk × List Event × Option Res
   match newRunner cfg st.reg d with
   | .ok => let (s, r) := run cfg st.reg st.env d; (s.disk, s.log, some r)
   | _ => (d, [], none)
+
+/-! ## node/migration.go `migrateIfNeeded`: the steps around the runner -/
+
+/-- `core.GetL1Head` before the prune migration: stored / `db.ErrKeyNotFound` / another error. -/
+inductive L1Head | present | missing | unreadable
+  deriving Repr, DecidableEq
+
+/-- What the environment decides for the steps of `migrateIfNeeded` that are not the runner. -/
+structure NodeEnv where
+  /-- `deprecated.MigrateIfNeeded` returns an error -/
+  deprecatedFails : Bool
+  /-- `config.Prune` -/
+  prune : Bool
+  l1 : L1Head
+  /-- `fetchL1HeadIfMissing`: the L1 client manages to store a head (needs the network) -/
+  fetchStores : Bool
+  /-- `config.HTTP`: `migrateFn` runs under `migration.RunWithServer` (status_server.go), which returns what
+  `migrateFn` returns -/
+  http : Bool
+
+/-- The order of the steps, as the source-level tie reads it off node/migration.go: `!` = the step's error
+is returned (wrapped), `prune?` / `http?` = only under that configuration switch. -/
+def nodePlan : String := "deprecated! prune?fetchL1Head! register newRunner! run! | http?serve(migrateFn)! migrateFn!"
+
+/-- `fetchL1HeadIfMissing`: nil iff an L1 head is stored afterwards. -/
+def fetchL1HeadIfMissing (ne : NodeEnv) : Bool :=
+  match ne.l1 with
+  | .present => true
+  | .missing => ne.fetchStores
+  | .unreadable => false
+
+inductive NodeRes | deprecatedFailed | l1HeadFailed | refused | ran (r : Result)
+  deriving Repr, DecidableEq
+
+/-- `migrateIfNeeded`: deprecated migrations, then (prune mode) the L1 head, then `registerMigrations`,
+`NewRunner`, `Run`; with `config.HTTP` the same under `RunWithServer`. -/
+def nodeStart (cfg : Cfg) (ne : NodeEnv) (d : Disk) (st : Start) : Disk × List Event × NodeRes :=
+  if ne.deprecatedFails then (d, [], .deprecatedFailed) else
+  if ne.prune && !fetchL1HeadIfMissing ne then (d, [], .l1HeadFailed) else
+  match start cfg d st with
+  | (d', l, some r) => (d', l, .ran r)
+  | (d', l, none) => (d', l, .refused)
 
 /-- Any number of starts; the log is the concatenation, newest first. -/
 def starts (cfg : Cfg) : Disk → List Start → Disk × List Event
